@@ -1,0 +1,53 @@
+//go:build verif
+
+// Accessors used only by the /verif C09 correspondence harness (randomized
+// fingerprints). Compiled only with -tags verif; adds no behaviour.
+
+package tls
+
+// VerifGenerateRandomizedSpec calls the unexported generateRandomizedSpec with
+// an explicit ClientHelloID (client string, seed, weights), server name and
+// NextProtos. weights == nil exercises the DefaultWeights fallback.
+func VerifGenerateRandomizedSpec(client string, seed *PRNGSeed, weights *Weights, serverName string, nextProtos []string) (ClientHelloSpec, error) {
+	id := ClientHelloID{Client: client, Version: helloAutoVers, Seed: seed, Weights: weights}
+	return generateRandomizedSpec(&id, serverName, nextProtos)
+}
+
+// VerifSuiteRow is one row of the cipherSuites table as shuffledCiphers reads it.
+type VerifSuiteRow struct {
+	ID    uint16
+	TLS12 bool // flags&suiteTLS12 != 0
+}
+
+// VerifCipherSuiteRows dumps cipherSuites (id, suiteTLS12 flag) in table order.
+func VerifCipherSuiteRows() []VerifSuiteRow {
+	out := make([]VerifSuiteRow, len(cipherSuites))
+	for i, s := range cipherSuites {
+		out[i] = VerifSuiteRow{s.id, s.flags&suiteTLS12 != 0}
+	}
+	return out
+}
+
+// VerifDefaultCipherSuitesTLS13 returns a copy of defaultCipherSuitesTLS13.
+func VerifDefaultCipherSuitesTLS13() []uint16 {
+	return append([]uint16(nil), defaultCipherSuitesTLS13...)
+}
+
+// VerifC09Consts returns the unexported constants generateRandomizedSpec uses.
+func VerifC09Consts() (pskDHE uint8, pointUncompressed uint8) {
+	return pskModeDHE, pointFormatUncompressed
+}
+
+// VerifRemoveRandomCiphers / VerifRemoveRC4Ciphers / VerifShuffledCiphers expose
+// the helpers for direct cases (seeded prng).
+func VerifRemoveRandomCiphers(seed *PRNGSeed, s []uint16, w float64) []uint16 {
+	r, _ := newPRNGWithSeed(seed)
+	return removeRandomCiphers(r, s, w)
+}
+
+func VerifRemoveRC4Ciphers(s []uint16) []uint16 { return removeRC4Ciphers(s) }
+
+func VerifShuffledCiphers(seed *PRNGSeed) ([]uint16, error) {
+	r, _ := newPRNGWithSeed(seed)
+	return shuffledCiphers(r)
+}
